@@ -761,7 +761,7 @@ void generate(const std::string &, Rng &wl, Rng &fl, Case &c)
     c.stratum = "observable";
     // control task: add / remove callbacks, destroy instruments
     TaskProg ctl;
-    int n = (int)wl.range(0, 6);
+    int n = (int)wl.range(0, vsim::tier_scale() > 1 && wl.chance(0.5) ? 10 : 6);
     for (int j = 0; j < n; ++j)
     {
       double r = wl.real();
@@ -780,7 +780,7 @@ void generate(const std::string &, Rng &wl, Rng &fl, Case &c)
   for (int r = 0; r < nread; ++r)
   {
     TaskProg p;
-    int n = (int)wl.range(0, 5);
+    int n = (int)wl.range(0, vsim::tier_scale() > 1 && wl.chance(0.5) ? 8 : 5);
     for (int j = 0; j < n; ++j)
     {
       if (wl.chance(0.3))
